@@ -161,6 +161,41 @@ def _builder_flags(sym, body, op):
     return flags
 
 
+_BUILDER_SETTERS = re.compile(r"OpenOptions::(read|write|append|truncate|create|create_new|mode|custom_flags)$|DirBuilder::(recursive|mode)$")
+
+
+def _statement_style_flags(prog, body, blk, op, flags):
+    """Builder methods called on the builder *variable* (`let mut o = OpenOptions::new(); o.create(true); if c { o.truncate(true) }
+    o.open(p)`) are not part of the receiver's value term. A setter that dominates the use sets its flag; one that merely may
+    precede it makes the flags uncertain ('?': may be set)."""
+    if op.place is None:
+        return flags
+    idx = prog.idx(body)
+    cf = idx.cfg
+    try:
+        al = idx.aliases(op.place, at=blk.i)
+    except Exception:
+        return flags
+    mut = idx.mutated_by()
+    for (l, pth) in al:
+        for (b2, mp, ai) in mut.get(l, []):
+            t2 = body.blocks[b2].term
+            if ai != 0 or t2.callee is None or b2 == blk.i:
+                continue
+            m = _BUILDER_SETTERS.search(norm_callee(t2.callee.path))
+            if not m or not cf.can_reach(b2, blk.i):
+                continue
+            name = m.group(1) or m.group(2)
+            val = t2.args[1].const_val if len(t2.args) > 1 and t2.args[1].is_const and isinstance(t2.args[1].const_val, bool) else "?"
+            if cf.dominates(b2, blk.i) and val != "?":
+                flags[name] = val
+            else:
+                if val is not False:
+                    flags[name] = "?" if flags.get(name) is not True else True
+                    flags["?"] = True
+    return flags
+
+
 def handle_kind(self_ty):
     s = norm_ty(self_ty or "")
     s = re.sub(r"^(&mut |&|std::pin::Pin<&mut |std::pin::Pin<&)+", "", s).rstrip(">") if s.startswith("std::pin") else re.sub(r"^(&mut |&)+", "", s)
@@ -185,6 +220,7 @@ class Inventory:
         self.effects = []          # all Effect
         self.by_body = {}          # body path -> [Effect]
         self.unmodelled = []       # (body, blk, term)
+        self.unawaited = []        # effects of async fs calls whose future is dropped without .await
         self._scan()
 
     def _scan(self):
@@ -196,8 +232,38 @@ class Inventory:
                     continue
                 e = self._effect_of(body, blk, t)
                 if e is not None:
+                    if self._is_async_fs(t) and not self._awaited(body, blk, t):
+                        # a future of a runtime filesystem function that is never awaited: the operation never runs
+                        self.unawaited.append(e)
+                        continue
                     self.effects.append(e)
                     self.by_body.setdefault(body.path, []).append(e)
+
+    @staticmethod
+    def _is_async_fs(t):
+        p = t.callee.path
+        return bool(re.match(r"^(tokio|async_std)::fs::(?!File::|OpenOptions::|DirBuilder::|ReadDir::|DirEntry::)\w+$", p)) or \
+            bool(re.match(r"^(tokio|async_std)::fs::(File::(open|create|create_new|sync_all|sync_data|set_len|metadata)|OpenOptions::open|DirBuilder::create)$", p))
+
+    def _awaited(self, body, blk, t):
+        """The future returned by this call reaches an `.await` (IntoFuture::into_future / a poll) or leaves the function
+        (returned / stored / passed on: somebody else may await it)."""
+        from .core import IDENT
+        prog = self.prog
+        for b2, t2 in body.calls():
+            if t2.callee is None or not t2.args:
+                continue
+            if t2.callee.path.endswith("IntoFuture::into_future") or t2.callee.path.endswith("Future::poll") or \
+                    "Pin::<Ptr>::new" in t2.callee.path or "join" in t2.callee.path or "spawn" in t2.callee.path:
+                for a in t2.args:
+                    for o in prog.resolve_op(body, a, IDENT, b2.i):
+                        if o.kind == "call" and o.term is t:
+                            return True
+        # returned as the function's value
+        for o in prog.resolve_lifted(body, 0, (), IDENT):
+            if o.kind == "call" and o.term is t:
+                return True
+        return False
 
     def _effect_of(self, body, blk, t):
         c = t.callee
@@ -210,6 +276,7 @@ class Inventory:
                 flags = {}
                 if "builder" in r:
                     flags = _builder_flags(self.sym, body, r["builder"])
+                    flags = _statement_style_flags(self.prog, body, blk, r["builder"], flags)
                 if kind == "Open":
                     if mut is None:
                         mutating = any(flags.get(k) for k in ("write", "append", "create", "create_new", "truncate", "?"))
@@ -369,6 +436,15 @@ class Inventory:
                 return ("Call", np)
             lf = self.prog.fns.get(rp)
             if lf is not None:
+                # a private helper that builds / opens the path it is given: classify what it returns
+                if not lf.outer.reachable and not lf.outer.impl_trait and depth < 6:
+                    from .symval import inline_private_calls
+                    skip = set(R.hash_fns) | set(R.bucket_path) | set(R.content_path)
+                    it = inline_private_calls(self.sym, self.prog, t, skip=skip)
+                    if it != t and not (it[0] == "call" and it[1] == rp):
+                        c = self.classify(it, depth + 1)
+                        if c[0] in ("Handle", "Content", "Bucket", "Join", "Parent", "TempIn", "Param", "Child", "Abs"):
+                            return c
                 return ("LocalCall", rp, tuple(self.classify(a, depth + 1) for a in args), path)
             return ("Call", np, tuple(self.classify(a, depth + 1) for a in args))
         if k == "agg":
